@@ -111,6 +111,29 @@ theorem switch_on_cached_reads_are_resolutions_partial (inp : Input) (fuel : Nat
     Spec inp (cacheFilter inp [] (load inp fuel).1.log) :=
   cache_preserves_spec inp _ (reads_meet_spec_partial inp fuel h)
 
+/-! ### uniform universes: the second sentence at full strength, no exclusion
+
+`Uniform inp` is a static, decidable condition on the file universe (not on the run): every non-'#' reference of every
+file resolves to the same location from every location of the universe — e.g. all references absolute (absolute
+paths, http(s) URLs), or all files in one directory. -/
+
+/-- On a uniform universe the exclusion class is empty. -/
+theorem uniform_never_foreign (inp : Input) (fuel : Nat) (h : Uniform inp) : ¬ ForeignBase inp fuel := by
+  unfold ForeignBase
+  rw [(load_inv inp fuel).uni h]; simp
+
+/-- Full-strength second sentence on uniform universes: every read is the root or the resolution of a reference
+found in an already-loaded document against that document's own location. -/
+theorem switch_on_reads_are_resolutions_uniform (inp : Input) (fuel : Nat) (h : Uniform inp) :
+    AllJust inp (load inp fuel).1.log :=
+  switch_on_reads_are_resolutions_partial inp fuel (uniform_never_foreign inp fuel h)
+
+/-- Both sentences, and the caching reader, on uniform universes. -/
+theorem reads_meet_spec_uniform (inp : Input) (fuel : Nat) (h : Uniform inp) :
+    Spec inp (load inp fuel).1.log ∧ Spec inp (cacheFilter inp [] (load inp fuel).1.log) :=
+  ⟨reads_meet_spec_partial inp fuel (uniform_never_foreign inp fuel h),
+   cache_preserves_spec inp _ (reads_meet_spec_partial inp fuel (uniform_never_foreign inp fuel h))⟩
+
 /-! ### the executable spec is the spec -/
 
 theorem justifiedB_iff (inp : Input) (pre : List Url) (u : Url) :
@@ -309,6 +332,23 @@ example : (load { x1 with allowed := false, rootFile := { x1.rootFile with tops 
 /-- non-vacuity: an absolute location read twice reaches the wrapped reader once, a relative file path every time -/
 example : cacheFilter x1 [] [fileUrl ["r", "a", "root.json"], fileUrl ["r", "a", "root.json"], ⟨"", "", false, ["rel.json"]⟩, ⟨"", "", false, ["rel.json"]⟩]
     = [fileUrl ["r", "a", "root.json"], ⟨"", "", false, ["rel.json"]⟩, ⟨"", "", false, ["rel.json"]⟩] := by decide
+
+/-- a single-directory universe: root → "d.json#/components/schemas/A" → "s.json", all in /r/a/ -/
+def x5 : Input :=
+  { allowed := true, entry := .file, rootLoc := some (fileUrl ["r", "a", "root.json"]), rootInStore := true
+    rootFile :=
+      { parses := true, elems := [], raw := [], typed := []
+        tops := [ .mk 1 .schema (some (fragRef "d.json#/components/schemas/A" ["d.json"] "/components/schemas/A")) [] ] }
+    store :=
+      [ (fileUrl ["r", "a", "d.json"],
+          { parses := true, elems := [], raw := []
+            tops := [ .mk 1 .schema none [ .mk 2 .schema (some (wholeRef "s.json" ["s.json"])) [] ] ]
+            typed := [("/components/schemas/A", .mk 1 .schema none [ .mk 2 .schema (some (wholeRef "s.json" ["s.json"])) [] ])] }),
+        (fileUrl ["r", "a", "s.json"], leafFile) ] }
+
+/-- non-vacuity of the uniform theorems: a three-file universe in one directory is uniform (three reads); the
+    witnesses of F-C11-1 are not uniform -/
+example : Uniform x5 ∧ (load x5 16).1.log.length = 3 ∧ ¬ Uniform x0 ∧ ¬ Uniform x3 := by decide
 
 /-- path algebra: "../b/p.json" against /r/a/root.json -/
 example : resolvePath (some (fileUrl ["r", "a", "root.json"])) ⟨"", "", false, ["..", "b", "p.json"]⟩
